@@ -54,6 +54,14 @@ TABLE = [
        why="threaded mode is chosen only when the Block fits in memlimit_threading"),
 ]
 
+TABLE += [
+    MP("stream:memusage-reported", "stream_decode", "stream_decoder.c", [], ("ret", MEMLIMIT),
+       src=("SEQ_BLOCK_INIT", "SEQ_BLOCK_HEADER"), init_seq=("SEQ_STREAM_HEADER",), min_guards=0,
+       cut_writes=("field:memusage",),
+       why="LZMA_MEMLIMIT_ERROR is returned only after coder->memusage was set to what the Block needs (lzma_memusage() "
+           "and lzma_memlimit_get/set report it so that the application can raise the limit to exactly that)"),
+]
+
 # (function, file, init state, states in which MEMLIMIT_ERROR may be returned)
 RESTART = [
     ("stream_decode", "stream_decoder.c", "SEQ_STREAM_HEADER", {"SEQ_BLOCK_INIT"}),
@@ -413,7 +421,39 @@ def check_terms(ck, prog, prog_xz):
           "xz: coder_set_compression_settings() re-estimates the memory usage for the single-threaded encoder at line %s "
           "without hardware_threads_set(1): coder_init() still creates the threaded encoder, which needs more memory "
           "than the usage that was compared with the limit" % bad, key="TERMS:xz:single-thread-fallback")
-    ck.floor("C09-TERMS", 6)
+    # direct (single-threaded) mode is entered because the Block alone needs most of the limit: everything the threaded
+    # mode holds is released first -- all cached output buffers (not the keep-one variant) and the worker threads
+    from .mtcommon import _all_paths_call
+    f = prog.fn("stream_decode_mt", "stream_decoder_mt.c")
+    site = None
+    for b_, i, e in f.iter_elems():
+        for c in ex.calls(e, into_refs=False):
+            if c.get("fn") == "lzma_block_decoder_init" and c["args"] and ex.show(c["args"][0]) == "&coder->block_decoder":
+                site = (b_, i, c)
+    if site is None:
+        raise AnalysisBroken("stream_decode_mt: direct-mode lzma_block_decoder_init() not found")
+    for callee, what in (("lzma_outq_clear_cache", "every cached output buffer is freed (lzma_outq_clear_cache, not the keep-one "
+                                                   "variant lzma_outq_clear_cache2)"),
+                         ("threads_end", "the worker threads and their filter chains are freed")):
+        ok = _all_paths_call(f, site[0], site[1], (callee,))
+        ck.ob("C09-TERMS", "mt:direct-mode:" + callee, ok, common.where(f, site[2]),
+              "stream_decode_mt: before direct mode allocates its filter chain, %s" % what if ok else
+              "stream_decode_mt(): the direct-mode Block decoder is initialised at line %s without %s() on every path before "
+              "it: memory held by the threaded mode stays allocated on top of a Block that alone needs most of the limit" % (
+                  ex.line(site[2]), callee), key="TERMS:mt:direct-mode:" + callee)
+    # lzma_memusage() of an LZ-based decoder reports the dictionary size of the *current* options: the dictionary buffer
+    # must therefore be reallocated whenever the needed size differs (also when it shrinks)
+    g = prog.fn("lzma_lz_decoder_init", "lz_decoder.c")
+    ck.saw_function(g)
+    conds = [ex.strip(b_.term["cond"]) for b_ in g.blocks.values() if b_.term and "cond" in b_.term and
+             "dict.size" in ex.show(b_.term["cond"]) and "alloc_size" in ex.show(b_.term["cond"])]
+    ok = len(conds) == 1 and conds[0].get("k") == "bin" and conds[0]["op"] == "!="
+    ck.ob("C09-TERMS", "lz:realloc-when-different", ok, common.where(g, conds[0]) if conds else common.where(g),
+          "lzma_lz_decoder_init: the dictionary is reallocated when coder->dict.size != alloc_size" if ok else
+          "lzma_lz_decoder_init(): the dictionary buffer is kept when `%s` is false: a re-used decoder keeps a larger "
+          "buffer than the memory usage it reports (and than the memory limit that was checked)" % (
+              ex.show(conds[0]) if conds else "?"), key="TERMS:lz:realloc-when-different")
+    ck.floor("C09-TERMS", 9)
 
 
 def guard_nodes(f, n):
